@@ -21,6 +21,7 @@ fn main() {
         ["gen", "eval"] => eval::gen(&args),
         ["replay", "eval"] => eval::replay(&args),
         ["replay", "trunc"] => strategy::replay_trunc(&args),
+        ["replay", "dist"] => strategy::replay_dist(&args),
         other => {
             eprintln!("unknown command {other:?}");
             std::process::exit(2);
